@@ -127,6 +127,10 @@ func (cr *ChunkReader) Read(p []byte) (int, error) {
 	if cr.checksumHash != nil {
 		cr.checksumHash.Write(p[:n])
 	}
+	if err == io.EOF {
+		// the stream ended before the final (zero length) chunk
+		return n, io.ErrUnexpectedEOF
+	}
 	return n, err
 }
 
